@@ -72,6 +72,24 @@ impl Chooser {
     fn n_at(&self, pos: usize) -> Option<u32> {
         self.inner.borrow().trail.get(pos).map(|p| p.n)
     }
+    /// Shallowest position >= fixed that still has untried alternatives: (position, prefixes to donate)
+    fn split(&self, fixed: usize) -> Option<(usize, Vec<Vec<u32>>)> {
+        let inner = self.inner.borrow();
+        for i in fixed..inner.trail.len() {
+            let p = inner.trail[i];
+            if p.chosen + 1 < p.n {
+                let base: Vec<u32> = inner.trail[..i].iter().map(|p| p.chosen).collect();
+                let mut out = vec![];
+                for c in p.chosen + 1..p.n {
+                    let mut v = base.clone();
+                    v.push(c);
+                    out.push(v);
+                }
+                return Some((i, out));
+            }
+        }
+        None
+    }
 }
 
 impl Inner {
@@ -274,8 +292,24 @@ where
     let start = Instant::now();
     let deadline = start + limits.wall;
 
+    if std::env::var("PV_SEQ").is_ok() {
+        // reference mode: plain sequential DFS, no seeding, no work sharing
+        let mut total = Stats::default();
+        let mut prefix = Some(Vec::new());
+        while let Some(p) = prefix.take() {
+            let ch = Chooser::new(p, limits.dev_budget);
+            let mut ex = Exec::default();
+            scenario(&ch, &mut ex);
+            let d = ch.depth();
+            total.absorb(ex, d, false);
+            prefix = ch.next_prefix(0);
+        }
+        total.wall = start.elapsed();
+        return total;
+    }
+
     // Phase 1: breadth-first seeding so that workers get independent subtrees.
-    let target = limits.threads * 48;
+    let target = limits.threads * 12;
     let mut seeds: VecDeque<Vec<u32>> = VecDeque::new();
     seeds.push_back(Vec::new());
     let mut total = Stats::default();
@@ -286,7 +320,9 @@ where
         let Some(seed) = seeds.pop_front() else { break };
         let ch = Chooser::new(seed.clone(), limits.dev_budget);
         let mut ex = Exec::default();
+        let t_exec = Instant::now();
         scenario(&ch, &mut ex);
+        let slow = t_exec.elapsed() > Duration::from_millis(20);
         if ch.depth() > seed.len() {
             let n = ch.n_at(seed.len()).unwrap();
             for c in 0..n {
@@ -302,7 +338,7 @@ where
         if seeds.is_empty() {
             break;
         }
-        if seeds.iter().all(|s| s.len() > 12) {
+        if seeds.iter().all(|s| s.len() > 12) || slow {
             break;
         }
     }
@@ -323,7 +359,7 @@ where
                     }
                     let seed = { queue.lock().unwrap().pop_front() };
                     let Some(seed) = seed else { break };
-                    let fixed = seed.len();
+                    let mut fixed = seed.len();
                     let mut prefix = Some(seed);
                     while let Some(p) = prefix.take() {
                         let ch = Chooser::new(p.clone(), limits.dev_budget);
@@ -362,6 +398,19 @@ where
                         }
                         if stop.load(Ordering::Relaxed) {
                             break;
+                        }
+                        // work sharing: if other workers are about to idle, donate the untried
+                        // alternatives of the shallowest open level of this subtree
+                        {
+                            let mut q = queue.lock().unwrap();
+                            if q.len() < limits.threads {
+                                if let Some((i, seeds)) = ch.split(fixed) {
+                                    for s in seeds {
+                                        q.push_back(s);
+                                    }
+                                    fixed = i + 1;
+                                }
+                            }
                         }
                         prefix = ch.next_prefix(fixed);
                     }
